@@ -128,17 +128,55 @@ def _explore_optimizer(report, tier, mergeable):
     return out
 
 
+def _seq_shape(seq):
+    """What kind of sequence this is, names abstracted away: per mutation its kind, the attributes
+    it sets (with values), whether it carries an initial value / a type, and which EARLIER mutation of
+    the sequence touched the same model / field (so that `add x, barrier, change x` is one shape
+    whatever x is)."""
+    out = []
+    seen_f, seen_m = {}, {}
+    for i, mu in enumerate(seq):
+        attrs = mu.get('attrs') or {}
+        if not isinstance(attrs, dict):
+            attrs = dict(attrs) if attrs else {}
+        fkey = (mu.get('m'), mu.get('f') if mu.get('f') not in (None, 'None') else mu.get('of'))
+        mkey = mu.get('m') if mu.get('m') not in (None, 'None') else mu.get('om')
+        out.append((mu.get('k'), tuple(sorted((k_, repr(v_)) for k_, v_ in attrs.items() if k_ != 'related_model')),
+                    mu.get('init') not in (None, 'None'), mu.get('ftype') not in (None, 'None') and mu.get('k') == 'Chg',
+                    mu.get('prop'), seen_f.get(fkey, -1) if fkey[1] not in (None, 'None') else -1,
+                    seen_m.get(mkey, -1)))
+        if fkey[1] not in (None, 'None'):
+            seen_f.setdefault(fkey, i)
+            if mu.get('k') == 'RenF':
+                seen_f.setdefault((mu.get('m'), mu.get('nf')), i)
+        seen_m.setdefault(mkey, i)
+    return tuple(out)
+
+
 def _pick(records, limit, rng):
-    """All records when they fit, else every predicted-violation record plus a
-    seeded sample stratified by length."""
+    """All records when they fit, else half the budget for records with a predicted violation and
+    half for the others, each drawn round-robin over the SHAPES of the sequences (_seq_shape) so that
+    rare shapes are executed as surely as common ones."""
     if len(records) <= limit:
         return list(records)
-    hot = [r for r in records if r[0]['viol']]
-    cold = [r for r in records if not r[0]['viol']]
-    rng.shuffle(hot)
-    rng.shuffle(cold)
-    hot = hot[:limit // 2]
-    return hot + cold[:max(0, limit - len(hot))]
+
+    def spread(pool, n):
+        strata = {}
+        for r in pool:
+            strata.setdefault(_seq_shape(r[0]['seq']), []).append(r)
+        keys = sorted(strata, key=repr)
+        rng.shuffle(keys)
+        for k in keys:
+            rng.shuffle(strata[k])
+        out = []
+        while len(out) < n and any(strata[k] for k in keys):
+            for k in keys:
+                if strata[k] and len(out) < n:
+                    out.append(strata[k].pop())
+        return out
+    hot = spread([r for r in records if r[0]['viol']], limit // 2)
+    cold = spread([r for r in records if not r[0]['viol']], max(0, limit - len(hot)))
+    return hot + cold
 
 
 def _mutseq_check(prop, tier, judge_name):
@@ -188,6 +226,12 @@ def _mutseq_check(prop, tier, judge_name):
                     # a predicted signature difference explains a schema difference
                     predicted = (('OptSameSig' if cls.startswith('opt-') else 'TwoPassSameSig')
                                  in rec['viol'])
+                    if not predicted and cls in ('opt-exec-failed', 'pipeline-exec-failed'):
+                        # ... and a predicted difference in what the rows hold explains an execution
+                        # that fails on the rows (a merged AddField inherits a ChangeField's initial
+                        # value: every row gets it, and a unique column cannot take it)
+                        predicted = (('OptSameData' if cls.startswith('opt-') else 'TwoPassSameData')
+                                     in rec['viol'])
                 fp = {'class': cls, 'predicted_by_spec': predicted,
                       'level': 'db' if cls in mutseq.DB_LEVEL else 'sig',
                       'hazards': sorted(rec.get('hazards') or [])}
@@ -395,15 +439,25 @@ def _clause_hits(rr, clause):
 
 def c04(tier, replay=None):
     from .dbproj import diff_schema, schema_of
+    from .engines import runs as runs_mod
     report = Report('C04', tier)
     maxver, maxruns, limit = (2, 3, 40) if tier == 'quick' else (3, 4, 400)
     nontrivial = set()
     all_chosen, ngen = 0, 0
     # second family: app a2's second evolution starts with RenameModel to a new table
     for family, a2_variant, share in (('chain', None, 1.0), ('rename', 3, 0.5)):
-        chosen, results, histories, oracles, n = _run_histories(
-            report, tier, maxver, maxruns, int(limit * share), faults=False, a2_variant=a2_variant,
-            with_rows=True)
+        try:
+            chosen, results, histories, oracles, n = _run_histories(
+                report, tier, maxver, maxruns, int(limit * share), faults=False, a2_variant=a2_variant,
+                with_rows=True)
+        except runs_mod.OracleInstallFailed as e:
+            # the first of the paths the property names - a fresh installation of the final
+            # version - does not even complete
+            err = e.error if isinstance(e.error, dict) else {}
+            report.fail({'class': 'fresh-install-of-a-version-failed', 'family': family,
+                         'error_type': err.get('type')},
+                        {'app': e.app, 'version': e.version, 'error': err.get('msg'), 'tb': err.get('tb')})
+            continue
         all_chosen += len(chosen)
         ngen += n
         _c04_judge(report, tier, family, chosen, results, histories, oracles, nontrivial)
@@ -1006,9 +1060,13 @@ def c08(tier, replay=None):
                       limit=5)
     _trace_rejections(report, 'C08', chosen, results)
     nledger = _c08_ledger(report, tier, nontrivial)
+    nsplit = _c08_interleaved(report, tier, nontrivial)
     report.coverage['distinct_nontrivial'] = len(nontrivial)
     report.coverage['exhaustive'] = len(chosen) == ngen
     report.coverage['rule'] = (
+        'Part 3 (MigGraph.tla): %d upgrades whose tasks are split into several batches (an app\'s pending '
+        'evolutions ordered around another app\'s evolutions or around migrations, incl. evolutions without '
+        'SQL): every pending evolution\'s own statements run exactly once and it is recorded exactly once.  ' % nsplit +
         'Part 2 (Ledger.tla): upgrade runs interleaved with mark-evolution-applied [--all] and wipe-evolution '
         '[--app-label] over two apps sharing labels; TLC checks ExecutedAtMostOnce, RecordedAtMostOnce, '
         'RecordedNeverExecutedAgain, OnlyCompletedRunsRecord, FreshRecordsWithoutExecuting over every operation '
@@ -1745,9 +1803,9 @@ def _schema_space(tier):
         return [tuple(int(x) for x in part.split(',')) for part in os.environ['VERIF_SCHEMA_SPACE'].split(';')]
     if tier == 'quick':
         return [(2, 1, 1), (2, 2, 1), (2, 4, 4), (2, 5, 6), (2, 2, 3), (2, 6, 1), (2, 7, 7), (2, 8, 8), (2, 9, 10), (2, 1, 9),
-                (2, 10, 3)]
+                (2, 10, 3), (2, 5, 11), (2, 11, 12)]
     return [(3, 1, 1), (3, 2, 1), (3, 4, 4), (3, 5, 6), (3, 2, 3), (4, 3, 2), (4, 3, 5), (3, 6, 1), (3, 7, 7), (3, 8, 8), (3, 9, 10), (3, 1, 9),
-            (3, 10, 3)]
+            (3, 10, 3), (3, 5, 11), (3, 10, 11), (3, 11, 12)]
 
 
 def _schema_check(prop, tier):
@@ -1942,8 +2000,56 @@ PROPERTY RenameRewritesAll
         'the real simulate() methods on a real ProjectSignature (model names that are prefixes of each '
         'other, app labels likewise) and the signature walked after every step. Non-trivial = length >= 2.'
         % maxlen)
-    report.assumptions += ['signature-level replay; the database-level part (foreign_key_check after execution) is covered by C01']
+    ndb = _c11_database(report, tier, nontrivial)
+    report.coverage['distinct_nontrivial'] = len(nontrivial)
+    report.coverage['rule'] += (
+        '  Database part (Schema.tla, foreign keys as <<column, referenced table, referenced column>>): %d '
+        'sequences over alphabet 11 of Optimizer.tla (a referenced primary key or model is renamed, then the '
+        'referring table is rebuilt, gains another relation to it or has its relation renamed; ForeignKey and '
+        'OneToOne starts) executed on SQLite through the three pipelines: PRAGMA foreign_key_check must pass and '
+        'every foreign key must point at the table and column a fresh creation gives it.' % ndb)
     return report.finish()
+
+
+def _c11_database(report, tier, nontrivial):
+    from .absmodel import norm_mutation, short
+    from .engines import mutseq
+    from .tlc import run_tlc, require_ok
+    maxlen = 2 if tier == 'quick' else 3
+    recs = []
+    for start in (5, 10):
+        res = require_ok(run_tlc('Schema', _schema_cfg(maxlen, start, 11), workers=8, timeout=3000), 'Schema.tla')
+        report.add_tlc('Schema len<=%d start=%d alphabet=11 (referenced keys / models renamed)' % (maxlen, start),
+                       res.stats())
+        start_sig = _start_sig(start)
+        recs += [(r, start_sig) for r in res.records if r['seq'] and r['optOk']]
+    jobs = [(rec, start_sig, i % 2, 'single' if i % 3 else 'each', True, True)
+            for i, (rec, start_sig) in enumerate(recs)]
+    observations = mutseq.observe_many(jobs)
+    done = 0
+    for (rec, start_sig, names_idx, split, _e, _f), obs in zip(jobs, observations):
+        report.coverage['evaluations'] += 1
+        if obs is None or obs.get('harness_error'):
+            continue
+        label = [short(norm_mutation(m)) for m in rec['seq']]
+        report.coverage['traces_validated_against_impl'] += 1
+        done += 1
+        if len(label) >= 2:
+            nontrivial.add('db:%d:%s' % (rec['start'], label))
+        fails, available = mutseq.c01_failures(rec, obs)
+        if not available:
+            continue
+        for cls, which, detail, kinds in fails:
+            relational = cls in ('foreign-key-check-failed', 'accepted-evolution-failed-to-execute',
+                                 'accepted-evolution-failed-to-generate-sql') or 'fks' in (kinds or [])
+            if not relational:
+                continue            # other schema differences are C01's business
+            report.fail({'class': cls, 'part': 'database', 'pipeline': which, 'kinds': kinds,
+                         'hazards': sorted(rec.get('hazards') or []),
+                         'optimiser_predicted': bool(set(rec['oviol']) - {'OptLeavesDefsIntact'})
+                         if which != 'ref' else False},
+                        {'sequence': label, 'start': rec['start'], 'observed': detail})
+    return done
 
 
 REGISTRY.update({'C11': c11})
@@ -2318,10 +2424,14 @@ def c13(tier, replay=None):
     _c13_placeholder(report, rig)
     R.close_db()
     nwritten = _c13_written_files(report, tier, nontrivial)
+    nalpha = _c13_alphabet_mutations(report, tier, nontrivial)
     report.coverage['distinct_nontrivial'] = len(nontrivial)
     report.coverage['exhaustive'] = len(chosen) == len(recs)
     report.notes.append('%d mutations taken through get_evolution_content()+exec' % level2)
     report.coverage['rule'] = (
+        'Part 4: %d mutation sequences of the SQL-level alphabets of Optimizer.tla (every mutation kind, initial values '
+        'on nullable and non-null columns, relations, Meta properties) rendered by get_evolution_content(), exec()-ed '
+        'and compared with their source by simulated signature and generated SQL.  ' % nalpha +
         'Part 3: %d model-set pairs of Hint.tla taken through the whole workflow on a real project: `evolve --hint '
         '--write NAME`, NAME listed in SEQUENCE, `evolve --execute`, then a fresh Evolver must find nothing left; hints '
         'that need a user value must refuse to run.  Parts 1-2: ' % nwritten +
@@ -2421,6 +2531,84 @@ CONSTRAINT Constraint
         if o.get('after_required') or o.get('after_diff_empty') is False:
             report.fail(dict(fp, **{'class': 'written-evolution-leaves-residual'}), detail)
     return len(chosen)
+
+
+def _c13_alphabet_mutations(report, tier, nontrivial):
+    """Part 4: every mutation of the SQL-level alphabets (Optimizer.tla: AddField / ChangeField incl.
+    initial values on nullable and non-null columns, type changes, relations, DeleteField, RenameField,
+    RenameModel, DeleteModel, ChangeMeta unique_together / index_together / indexes / constraints) and every
+    two-mutation sequence of a sample, rendered through a real task's get_evolution_content(), exec()-ed,
+    and compared with the mutations it was rendered from by simulated signature and generated SQL."""
+    import random
+    from .absmodel import ALT_NAMES, short, norm_mutation
+    from .common import seed
+    from .engines import codec, mutseq
+    from . import rig as R
+    from .tlc import run_tlc, require_ok
+    from django_evolution.evolve import Evolver
+    rng = random.Random(seed() * 313 + 13)
+    spaces = sorted(set((s_, a_) for _l, s_, a_ in _schema_space('quick')))
+    done = 0
+    for start, alpha in spaces:
+        maxlen = 1 if tier == 'quick' else 2
+        res = require_ok(run_tlc('Schema', _schema_cfg(maxlen, start, alpha), workers=8, timeout=3000), 'Schema.tla')
+        report.add_tlc('Schema len<=%d start=%d alphabet=%d (mutations to render)' % (maxlen, start, alpha), res.stats())
+        # SQLMutation is never hinted and carries no value of C13's quantifier (its text names a tag)
+        recs = [r for r in res.records if r['seq'] and r.get('ok', True)
+                and not any(m['k'] == 'SQL' for m in r['seq'])]
+        if tier != 'quick' and len(recs) > 400:
+            ones = [r for r in recs if len(r['seq']) == 1]
+            twos = [r for r in recs if len(r['seq']) == 2]
+            rng.shuffle(twos)
+            recs = ones + twos[:400 - len(ones)]
+        start_sig = _start_sig(start)
+        rig = mutseq._get_rig(start_sig, 0)
+        names = ALT_NAMES[0]
+        for r in recs:
+            label = [short(norm_mutation(m)) for m in r['seq']]
+            try:
+                muts = mutseq._real_muts(r['seq'], names, start_sig)
+            except Exception as e:
+                report.notes.append('C13 part 4: cannot build %s: %s' % (label, e))
+                continue
+            report.coverage['evaluations'] += 1
+            rig.restore_models()
+            rig.fresh_copy('c13a')
+            R.reset_globals()
+            o2 = codec.render_and_load(muts, rig.app_module(), Evolver)
+            kinds = sorted(set(type(m).__name__ for m in muts))
+            d2 = {'part': 'alphabet', 'start': start, 'mutations': label, 'text': o2.get('text'),
+                  'observed': {k: o2[k] for k in o2 if k not in ('loaded', 'tb', 'text')}}
+            fp = {'part': 'alphabet', 'mutation': kinds}
+            if o2.get('render_error') or o2.get('content_error'):
+                # a sequence the real simulation refuses is not a hint anybody gets
+                if 'SimulationFailure' in str(o2.get('content_error') or '') or \
+                        'EvolutionBaselineMissing' in str(o2.get('content_error') or ''):
+                    R.close_db()
+                    continue
+                report.fail(dict(fp, **{'class': 'evolution-content-raises'}), d2)
+            elif o2.get('load_error'):
+                report.fail(dict(fp, **{'class': 'evolution-text-not-loadable',
+                                        'error': o2['load_error'].split(':')[0]}), d2)
+            else:
+                report.coverage['traces_validated_against_impl'] += 1
+                done += 1
+                nontrivial.add('alphabet:%d:%s' % (start, label))
+                try:
+                    rig.fresh_copy('c13b')
+                    R.reset_globals()
+                    # fresh objects: the first run may have rewritten the definitions it was given
+                    again = mutseq._real_muts(r['seq'], names, start_sig)
+                    same_sig, same_sql, q1, q2 = codec.effects_equal(rig, again, o2['loaded'])
+                    if not same_sig or not same_sql:
+                        report.fail(dict(fp, **{'class': 'loaded-evolution-differs',
+                                                'same_sig': same_sig, 'same_sql': same_sql}),
+                                    dict(d2, sql=[q1[:12], q2[:12]]))
+                except Exception as e:
+                    report.notes.append('C13 part 4: effect comparison failed for %s: %s: %s'
+                                        % (label, type(e).__name__, str(e)[:100]))
+            R.close_db()
+    return done
 
 
 def _c13_placeholder(report, rig):
@@ -2986,6 +3174,71 @@ INVARIANT SoftOnlyLegacyInitial
 
 
 REGISTRY.update({'C10': c10})
+
+
+def _c08_interleaved(report, tier, nontrivial):
+    """C08 over upgrades whose tasks are split into several batches (MigGraph.tla: evolutions of two
+    apps ordered around each other and around migrations, incl. evolutions without SQL): every pending
+    evolution's SQL runs exactly once in the run - judged on the statements themselves - and every
+    pending evolution is recorded exactly once."""
+    import random
+    from concurrent.futures import ThreadPoolExecutor
+    from .common import seed
+    from .engines import miggraph as MG
+    from .tlc import run_tlc, require_ok, write_cfg
+    cfg = write_cfg('MC_MigGraph_c08.cfg', '''
+SPECIFICATION Spec
+CONSTANTS
+  GLen = %d
+  MaxDecl = 2
+  EmitRecords = TRUE
+CONSTRAINT Constraint
+INVARIANT ChainsAloneSatisfiable
+''' % MG.GLEN)
+    res = require_ok(run_tlc('MigGraph', cfg, workers=8, timeout=3000), 'MigGraph.tla')
+    report.add_tlc('MigGraph GLen=%d MaxDecl=2 (split batches, for exactly-once)' % MG.GLEN, res.stats())
+    rng = random.Random(seed() * 467 + 8)
+    strata = {}
+    for r in res.records:
+        if r['unsat']:
+            continue
+        kinds = tuple(sorted(d[0] for d in r['decls']))
+        # only upgrades in which some app has two pending evolutions and something orders them apart
+        if not any(n >= 2 for n in (r['epending'].values() if isinstance(r['epending'], dict) else r['epending'])):
+            continue
+        if not any(k in ('eae', 'eam', 'ebm') for k in kinds):
+            continue
+        strata.setdefault((kinds, bool(r.get('hollow'))), []).append(r)
+    for k in strata:
+        rng.shuffle(strata[k])
+    limit = 24 if tier == 'quick' else 300
+    chosen = []
+    while len(chosen) < limit and any(strata.values()):
+        for k in sorted(strata, key=lambda x: (not x[1], repr(x))):
+            if strata[k] and len(chosen) < limit:
+                chosen.append(strata[k].pop())
+    with ThreadPoolExecutor(16) as ex:
+        observations = list(ex.map(MG.run_config, chosen))
+    for rec, obs in zip(chosen, observations):
+        report.coverage['evaluations'] += 1
+        label = {'family': 'split-batches', 'epending': rec['epending'], 'gapplied': rec['gapplied'],
+                 'decls': rec['decls'], 'ordering_only': rec.get('hollow')}
+        if 'setup_error' in obs:
+            report.notes.append('C08 split-batch family setup problem: %s' % str(obs['setup_error'])[:160])
+            continue
+        report.coverage['traces_validated_against_impl'] += 1
+        nontrivial.add(json_key(label, 'split'))
+        for cls, info in MG.judge(rec, obs):
+            if cls not in ('unit-not-executed-exactly-once', 'pending-evolution-not-recorded'):
+                continue            # order is C09's business
+            fp = {'class': cls, 'family': 'split-batches', 'by': (info or {}).get('by'),
+                  'twice': bool((info or {}).get('twice')), 'ordering_only_evolution': bool(rec.get('hollow'))}
+            report.fail(fp, dict(label, order=obs.get('order'), sql_order=obs.get('sql_order'), info=info))
+        rows = [tuple(x) for x in (obs.get('evolutions') or [])]
+        dups = sorted(set(x for x in rows if rows.count(x) > 1))
+        if dups:
+            report.fail({'class': 'label-recorded-twice', 'family': 'split-batches'}, dict(label, duplicates=dups))
+    return len(chosen)
 
 
 def _c09_migrations(report, tier, nontrivial):
